@@ -492,6 +492,20 @@ impl CharExt for char {
             us::Script::Yezidi => script::YEZIDI,
             us::Script::Yi => script::YI,
             us::Script::Zanabazar_Square => script::ZANABAZAR_SQUARE,
+            us::Script::Cypro_Minoan => script::CYPRO_MINOAN,
+            us::Script::Old_Uyghur => script::OLD_UYGHUR,
+            us::Script::Tangsa => script::TANGSA,
+            us::Script::Toto => script::TOTO,
+            us::Script::Vithkuqi => script::VITHKUQI,
+            us::Script::Kawi => script::KAWI,
+            us::Script::Nag_Mundari => script::NAG_MUNDARI,
+            us::Script::Garay => script::GARAY,
+            us::Script::Gurung_Khema => script::GURUNG_KHEMA,
+            us::Script::Kirat_Rai => script::KIRAT_RAI,
+            us::Script::Ol_Onal => script::OL_ONAL,
+            us::Script::Sunuwar => script::SUNUWAR,
+            us::Script::Todhri => script::TODHRI,
+            us::Script::Tulu_Tigalari => script::TULU_TIGALARI,
             _ => script::UNKNOWN,
         }
     }
